@@ -623,6 +623,9 @@ func run(c *runner.Ctx) {
 			} else if c.Index()%4 == 1 {
 				// (another quarter right after a call that replaced the field's rule for itself)
 				cars = append(cars, carrier.StructTagHist)
+			} else if c.Index()%4 == 2 {
+				// (another quarter through every public spelling of the struct and Var entry points)
+				cars = append(cars, carrier.StructWrappers, carrier.VarWrappers)
 			}
 			if v.Kind() == reflect.Bool {
 				cars = cars[1:] // Var(bool) is a separate question (C03)
